@@ -1373,3 +1373,69 @@ func ruleC32c(c *Ctx, r *Report) {
 		r.undecided(rule, c.FuncName(mod), "send:error", c.Pos(mod.Pos()), "no per-proxy result is reported from the goroutines")
 	}
 }
+
+func init() { register("C39", "", ruleC39true) }
+
+// ruleC39true (PC5c): where a function that returns a result to the client learns that the backend still has rows
+// (MoreRowsExist()==true), every path to a success return hands the connection to the streaming writer
+// (session.continueConn = pc), drains it (FetchMoreRows) or fails.
+func ruleC39true(c *Ctx, r *Report) {
+	const rule = "PC5c"
+	r.floor(rule, 1)
+	pf := c.pcFacts()
+	more := c.pcMethod("MoreRowsExist")
+	fetch := c.pcMethod("FetchMoreRows")
+	if pf == nil || more == nil || fetch == nil {
+		r.undecided(rule, "proxy/server", "anchor", "-", "anchors not found")
+		return
+	}
+	n := 0
+	for _, fn := range pf.serverFuncs() {
+		res := fn.Signature.Results()
+		if res.Len() < 2 || errResultIndex(fn.Signature) != res.Len()-1 || !strings.Contains(res.At(0).Type().String(), "mysql.Result") {
+			continue
+		}
+		name := c.FuncName(fn)
+		for _, ci := range callsIn(fn, func(cc *ssa.CallCommon) bool { return callsIfaceMethod(cc, more) }) {
+			call, ok := ci.(*ssa.Call)
+			if !ok {
+				continue
+			}
+			pc := recvOf(&call.Call)
+			a := aliasSet(resolveLoad(stripValue(pc)))
+			a[stripValue(pc)] = true
+			for _, e := range condEdges(call) {
+				if !e.Val {
+					continue
+				}
+				n++
+				exits := searchExits(fn, nil, e.If.Block().Succs[e.Succ], SearchOpts{
+					Stop: func(in ssa.Instruction) bool {
+						if st, ok := in.(*ssa.Store); ok && fieldOfAddr(st.Addr) == pf.contF && a.has(st.Val) {
+							return true
+						}
+						cc := callCommon(in)
+						return cc != nil && callsIfaceMethod(cc, fetch) && a.has(recvOf(cc))
+					},
+					ExitOK: func(in ssa.Instruction) bool {
+						ret, ok := in.(*ssa.Return)
+						if !ok {
+							return true
+						}
+						isNil, known := returnsNilError(ret)
+						return known && !isNil
+					},
+				})
+				cons := "more-rows-edge@" + ordinalOfIface(ci, more)
+				if len(exits) == 0 {
+					r.ok(rule, name, cons, c.Pos(call.Pos()), "when the backend still has rows the connection is handed to the streaming writer (or drained, or the statement fails) on every path")
+				} else {
+					r.viol(rule, name, cons, c.Pos(call.Pos()), "the function knows the backend still has rows and can nevertheless return the partial result as complete", c.pathStrings(exits[0])...)
+				}
+			}
+		}
+	}
+	if n == 0 {
+		r.undecided(rule, "proxy/server", "more-rows-edge", "-", "no result-returning function branches on MoreRowsExist()")
+	}
+}
